@@ -70,10 +70,57 @@ def ifexp_statements(fn: ast.FunctionDef) -> list[str]:
     return out
 
 
+def ordered_bindings(fn: ast.FunctionDef) -> list[str]:
+    """Parameters, then local names in the order of their first binding (a renaming keeps this order)."""
+    out = [a.arg for a in fn.args.posonlyargs + fn.args.args + fn.args.kwonlyargs]
+    if fn.args.vararg:
+        out.append(fn.args.vararg.arg)
+    if fn.args.kwarg:
+        out.append(fn.args.kwarg.arg)
+    seen = set(out)
+    binds = []
+    for n in ast.walk(fn):
+        if isinstance(n, ast.Name) and isinstance(n.ctx, ast.Store):
+            binds.append((getattr(n, 'lineno', 0), getattr(n, 'col_offset', 0), n.id))
+        elif isinstance(n, ast.ExceptHandler) and n.name:
+            binds.append((n.lineno, n.col_offset, n.name))
+    for _, _, name in sorted(binds):
+        if name not in seen:
+            seen.add(name)
+            out.append(name)
+    return out
+
+
+def shape(fn: ast.FunctionDef) -> str:
+    """Structure of a function with every identifier erased: equal for two functions that differ only in names."""
+    parts = []
+    for n in ast.walk(fn):
+        if isinstance(n, ast.Constant):
+            parts.append(f'K{type(n.value).__name__}')
+        else:
+            parts.append(type(n).__name__)
+    return ' '.join(parts)
+
+
+def class_private_attrs(ci) -> dict[str, list[str]]:
+    """private attribute -> sorted list of 'method:load|store' uses inside the class."""
+    out: dict[str, list[str]] = {}
+    for mname, m in list(ci.methods.items()) + [(k + '#setter', v) for k, v in getattr(ci, 'setters', {}).items()]:
+        for n in ast.walk(m.node):
+            if isinstance(n, ast.Attribute) and isinstance(n.value, ast.Name) and n.value.id in ('self', 'cls') and n.attr.startswith('_') and not n.attr.startswith('__'):
+                out.setdefault(n.attr, []).append(f'{type(n.ctx).__name__}')
+    return {k: sorted(v) for k, v in out.items()}
+
+
 def build_reference(repo) -> dict:
-    ref = {'functions': {}}
+    ref = {'functions': {}, 'classes': {}}
     for q, fi in repo.functions.items():
-        ref['functions'][q] = {'locals': sorted(local_names(fi.node)), 'ifexp': sorted(ifexp_statements(fi.node))}
+        par = [_u(n) for n in ast.walk(fi.node) if isinstance(n, ast.Assign) and len(n.targets) == 1 and isinstance(n.targets[0], ast.Tuple)
+               and isinstance(n.value, ast.Tuple)]
+        ref['functions'][q] = {'locals': sorted(local_names(fi.node)), 'ifexp': sorted(ifexp_statements(fi.node)),
+                               'bindings': ordered_bindings(fi.node), 'shape': shape(fi.node), 'parallel': sorted(par)}
+    for q, ci in repo.classes.items():
+        ref['classes'][q] = {'attrs': class_private_attrs(ci), 'methods': sorted(ci.methods)}
     return ref
 
 
@@ -230,6 +277,56 @@ def _helper_shape(h: ast.FunctionDef):
     return 'multi', body
 
 
+def _structure_returns(body: list[ast.stmt]) -> list[ast.stmt] | None:
+    """Rewrite a body in which every path ends in a `return` at a tail position (guard clauses, if/elif/else chains)
+    so that each `return` is the last statement of its branch: `if c: return a` followed by `rest` becomes
+    `if c: return a` / `else: rest`. None if a return sits in a loop, a try or a with."""
+    body = list(body)
+    for i, st in enumerate(body):
+        if isinstance(st, ast.Return):
+            return body[:i + 1]
+        if isinstance(st, (ast.For, ast.While, ast.Try, ast.With, ast.AsyncFor, ast.AsyncWith)) and any(isinstance(n, ast.Return) for n in ast.walk(st)):
+            return None
+        if isinstance(st, ast.If) and any(isinstance(n, ast.Return) for n in ast.walk(st)):
+            rest = body[i + 1:]
+            then_ = _structure_returns(st.body + ([] if _always_returns(st.body) else rest))
+            else_ = _structure_returns((st.orelse or []) + ([] if st.orelse and _always_returns(st.orelse) else rest))
+            if then_ is None or else_ is None:
+                return None
+            new = ast.If(test=st.test, body=then_ or [ast.Pass()], orelse=else_)
+            ast.copy_location(new, st)
+            return body[:i] + [new]
+    return body
+
+
+def _always_returns(body) -> bool:
+    if not body:
+        return False
+    last = body[-1]
+    if isinstance(last, (ast.Return, ast.Raise)):
+        return True
+    if isinstance(last, ast.Expr) and isinstance(last.value, ast.Call) and _u(last.value.func) in ('sys.exit', 'exit'):
+        return True
+    if isinstance(last, ast.If) and last.orelse:
+        return _always_returns(last.body) and _always_returns(last.orelse)
+    return False
+
+
+def _replace_returns(body, make):
+    """In a structured body replace every `return E` by make(E)."""
+    out = []
+    for st in body:
+        if isinstance(st, ast.Return):
+            out.extend(make(st.value if st.value is not None else ast.Constant(value=None)))
+        elif isinstance(st, ast.If):
+            new = ast.If(test=st.test, body=_replace_returns(st.body, make) or [ast.Pass()], orelse=_replace_returns(st.orelse, make))
+            ast.copy_location(new, st)
+            out.append(new)
+        else:
+            out.append(st)
+    return out
+
+
 def _bind(h: ast.FunctionDef, call: ast.Call, skip_first: bool):
     a = h.args
     if a.vararg or a.kwarg or a.posonlyargs:
@@ -308,7 +405,7 @@ def _resolve_helper(repo, fi, call: ast.Call, helpers):
     return None, False
 
 
-def _instantiate(h, call, skip_first, caller_locals, recv_name):
+def _instantiate(h, call, skip_first, caller_locals, recv_name, target: str | None = None):
     shape = _helper_shape(h.node)
     if shape is None:
         return None
@@ -324,8 +421,17 @@ def _instantiate(h, call, skip_first, caller_locals, recv_name):
         return None
     # helper locals must not capture caller variables
     ren = {}
+    # ... except the local the helper returns, when the caller assigns the result to a variable of its own: that local *is* the target
+    rets = [n for n in ast.walk(wrapper) if isinstance(n, ast.Return)]
+    ret_local = None
+    if target is not None and rets and all(isinstance(r.value, ast.Name) and r.value.id == rets[0].value.id for r in rets if r.value is not None) \
+            and all(r.value is not None for r in rets) and rets[0].value.id in h_locals \
+            and not any(isinstance(n, ast.Name) and n.id == target for a in m.values() for n in ast.walk(a)) \
+            and (target not in h_locals or target == rets[0].value.id):
+        ret_local = rets[0].value.id
+        ren[ret_local] = target
     for v in h_locals:
-        if v in caller_locals:
+        if v in caller_locals and v != ret_local:
             ren[v] = f'{v}__{h.name.strip("_")}'
     if ren:
         for n in ast.walk(wrapper):
@@ -361,7 +467,11 @@ def _try_inline_stmt(repo, fi, st, helpers, caller_locals):
         h, skip = _resolve_helper(repo, fi, call, helpers)
         if h is not None and h.node is not fi.node:
             recv = call.func.value.id if isinstance(call.func, ast.Attribute) else None
-            inst = _instantiate(h, call, skip, caller_locals, recv)
+            tgt_name = None
+            if mode == 'assign':
+                t0 = st.targets[0] if isinstance(st, ast.Assign) and len(st.targets) == 1 else getattr(st, 'target', None)
+                tgt_name = t0.id if isinstance(t0, ast.Name) else None
+            inst = _instantiate(h, call, skip, caller_locals, recv, tgt_name)
             if inst is not None:
                 kind, body = inst
                 out = None
@@ -371,9 +481,23 @@ def _try_inline_stmt(repo, fi, st, helpers, caller_locals):
                     new = copy.deepcopy(st)
                     new.value = body[-1].value
                     out = body[:-1] + [new]
+                elif mode in ('assign', 'expr') and kind == 'multi':
+                    sb = _structure_returns(body)
+                    if sb is not None and (_always_returns(sb) or mode == 'expr'):
+                        if mode == 'assign':
+                            def make(e, st=st):
+                                n2 = copy.deepcopy(st)
+                                n2.value = e
+                                return [n2]
+                        else:
+                            def make(e):
+                                return [] if _is_pure(e) else [ast.Expr(value=e)]
+                        out = _replace_returns(sb, make)
                 elif mode == 'return':
                     out = body if kind != 'none' else body + [ast.Return(value=ast.Constant(value=None))]
                 if out is not None:
+                    out = [s_ for s_ in out if not (isinstance(s_, ast.Assign) and len(s_.targets) == 1 and isinstance(s_.targets[0], ast.Name)
+                                                    and isinstance(s_.value, ast.Name) and s_.value.id == s_.targets[0].id)]
                     for s in out:
                         _set_lines(s, st)
                     return out or [ast.Pass(lineno=st.lineno, col_offset=0)]
@@ -540,6 +664,203 @@ class _Spelling(ast.NodeTransformer):
         return node
 
 
+# ------------------------------------------------------------------------------------------------ (g) parallel assignments
+
+def _split_parallel(fn: ast.FunctionDef, known_stmts: set[str]) -> list[str]:
+    """`a, b = f(a), g(b)` -> `a = f(a)` / `b = g(b)` when no right-hand side reads a target assigned before it."""
+    done = []
+    for body in list(_bodies(fn)):
+        i = 0
+        while i < len(body):
+            st = body[i]
+            if isinstance(st, ast.Assign) and len(st.targets) == 1 and isinstance(st.targets[0], ast.Tuple) and isinstance(st.value, ast.Tuple) \
+                    and len(st.targets[0].elts) == len(st.value.elts) and all(isinstance(t, ast.Name) for t in st.targets[0].elts) \
+                    and _u(st) not in known_stmts:
+                names = [t.id for t in st.targets[0].elts]
+                ok = True
+                for k, v in enumerate(st.value.elts):
+                    reads = {n.id for n in ast.walk(v) if isinstance(n, ast.Name)}
+                    if reads & set(names[:k]) or not _is_pure(v):
+                        ok = False
+                if ok and len(set(names)) == len(names):
+                    new = []
+                    for t, v in zip(st.targets[0].elts, st.value.elts):
+                        a = ast.Assign(targets=[t], value=v)
+                        _set_lines(a, st)
+                        a.targets, a.value = [t], v
+                        new.append(a)
+                    body[i:i + 1] = new
+                    done.append(_u(st)[:70])
+                    i += len(new)
+                    continue
+            i += 1
+    return done
+
+
+# ------------------------------------------------------------------------------------------------ (e) renamings
+
+def _rename_attr_everywhere(repo, old: str, new: str, cls=None):
+    """Rename attribute `old` to `new`: inside `cls` and its subclasses when given (self./cls. receivers), else repo-wide."""
+    if cls is None:
+        for m in repo.modules.values():
+            for n in ast.walk(m.tree):
+                if isinstance(n, ast.Attribute) and n.attr == old:
+                    n.attr = new
+        return
+    for c in [cls] + cls.all_subclasses():
+        for f in list(c.methods.values()) + list(getattr(c, 'setters', {}).values()):
+            for n in ast.walk(f.node):
+                if isinstance(n, ast.Attribute) and n.attr == old:
+                    n.attr = new
+
+
+def _recover_renames(repo, ref, log: dict) -> None:
+    ref_f, ref_c = ref['functions'], ref.get('classes', {})
+    all_ref_attrs = {a for c in ref_c.values() for a in c['attrs']}
+    all_ref_methods = {m for c in ref_c.values() for m in c['methods']}
+    # private methods: a method the reviewed class does not have, while one it had is gone, with the same structure
+    for cq, ci in repo.classes.items():
+        rc = ref_c.get(cq)
+        if rc is None:
+            continue
+        now = set(ci.methods)
+        gone = [m for m in rc['methods'] if m not in now and m.startswith('_') and not m.startswith('__')]
+        added = [m for m in now if m not in rc['methods'] and m.startswith('_') and not m.startswith('__')]
+        for a in list(added):
+            fa = ci.methods[a]
+            cands = [g for g in gone if ref_f.get(f'{cq}.{g}', {}).get('shape') == shape(fa.node)]
+            if len(cands) != 1 and len(gone) == 1 and len(added) == 1:
+                cands = gone
+            if len(cands) != 1:
+                continue
+            g = cands[0]
+            gone.remove(g)
+            added.remove(a)
+            # re-key the function and rename every reference to it
+            del ci.methods[a]
+            ci.methods[g] = fa
+            oldq = fa.qualname
+            fa.node.name = g
+            fa.name = g
+            fa.qualname = f'{cq}.{g}'
+            repo.functions.pop(oldq, None)
+            repo.functions[fa.qualname] = fa
+            _rename_attr_everywhere(repo, a, g, None if a not in all_ref_methods and a not in all_ref_attrs else ci)
+            log.setdefault(cq, []).append(f'private method {a} recognised as the reviewed {g} (same structure)')
+    # private attributes
+    for cq, ci in repo.classes.items():
+        rc = ref_c.get(cq)
+        if rc is None:
+            continue
+        now = class_private_attrs(ci)
+        own_methods = set(ci.methods)
+        gone = [a for a in rc['attrs'] if a not in now and a not in own_methods]
+        added = [a for a in now if a not in rc['attrs'] and a not in own_methods and a not in rc['methods']]
+        for a in list(added):
+            cands = [g for g in gone if rc['attrs'][g] == now[a]]
+            if len(cands) != 1 and len(gone) == 1 and len(added) == 1:
+                cands = gone
+            if len(cands) != 1:
+                continue
+            g = cands[0]
+            gone.remove(g)
+            added.remove(a)
+            _rename_attr_everywhere(repo, a, g, None if a not in all_ref_attrs and a not in all_ref_methods else ci)
+            log.setdefault(cq, []).append(f'private attribute {a} recognised as the reviewed {g} (same uses)')
+    # parameters and locals: same number of bindings, in the same order
+    for q, fi in repo.functions.items():
+        rf = ref_f.get(q)
+        if rf is None or 'bindings' not in rf:
+            continue
+        was, now = rf['bindings'], ordered_bindings(fi.node)
+        if was == now or len(was) != len(now):
+            continue
+        ren = {n: w for w, n in zip(was, now) if w != n}
+        if not ren or set(ren) & set(was) or len(set(ren.values())) != len(ren):
+            continue          # a swap or a clash: not a plain renaming
+        for n in ast.walk(fi.node):
+            if isinstance(n, ast.Name) and n.id in ren:
+                n.id = ren[n.id]
+            elif isinstance(n, ast.arg) and n.arg in ren:
+                n.arg = ren[n.arg]
+            elif isinstance(n, ast.ExceptHandler) and n.name in ren:
+                n.name = ren[n.name]
+            elif isinstance(n, ast.keyword) and False:
+                pass
+        # keyword arguments at call sites that name a renamed parameter
+        pren = {n: w for n, w in ren.items() if w in [a.arg for a in fi.node.args.args + fi.node.args.kwonlyargs]}
+        if pren:
+            for m in repo.modules.values():
+                for c in ast.walk(m.tree):
+                    if isinstance(c, ast.Call) and (getattr(c.func, 'attr', None) == fi.name or getattr(c.func, 'id', None) == fi.name):
+                        for k in c.keywords:
+                            if k.arg in pren:
+                                k.arg = pren[k.arg]
+        log.setdefault(q, []).append('renamed bindings recognised: ' + ', '.join(f'{n}->{w}' for n, w in ren.items()))
+
+
+# ------------------------------------------------------------------------------------------------ (f) assignment expressions
+
+def _hoist_walrus(fn: ast.FunctionDef) -> list[str]:
+    """`if (m := E) is not None:` -> `m = E` / `if m is not None:` when the assignment is the first thing the test evaluates."""
+    done = []
+
+    def first_walrus(e):
+        # the sub-expression evaluated first, unconditionally
+        while True:
+            if isinstance(e, ast.NamedExpr):
+                return e
+            if isinstance(e, ast.Compare):
+                e = e.left
+            elif isinstance(e, ast.UnaryOp):
+                e = e.operand
+            elif isinstance(e, ast.BoolOp):
+                e = e.values[0]
+            elif isinstance(e, ast.Call) and e.args and not isinstance(e.func, ast.NamedExpr) and isinstance(e.func, ast.Name):
+                e = e.args[0]
+            else:
+                return None
+    for body in list(_bodies(fn)):
+        i = 0
+        while i < len(body):
+            st = body[i]
+            if isinstance(st, ast.If):
+                w = first_walrus(st.test)
+                if w is not None and isinstance(w.target, ast.Name):
+                    asg = ast.Assign(targets=[ast.Name(id=w.target.id, ctx=ast.Store())], value=w.value)
+                    _set_lines(asg, st)
+                    asg.value = w.value
+
+                    class R(ast.NodeTransformer):
+                        def visit_NamedExpr(self, node):
+                            if node is w:
+                                return ast.copy_location(ast.Name(id=w.target.id, ctx=ast.Load()), node)
+                            return self.generic_visit(node)
+                    st.test = R().visit(st.test)
+                    body.insert(i, asg)
+                    done.append(f'{w.target.id} := {_u(w.value)[:50]}')
+                    i += 1
+            i += 1
+    return done
+
+
+class _Spelling2(ast.NodeTransformer):
+    """isinstance(x, (A, B)) -> isinstance(x, A) or isinstance(x, B)."""
+    def __init__(self):
+        self.done = []
+
+    def visit_Call(self, node: ast.Call):
+        self.generic_visit(node)
+        if isinstance(node.func, ast.Name) and node.func.id == 'isinstance' and len(node.args) == 2 and isinstance(node.args[1], ast.Tuple) and node.args[1].elts \
+                and _is_pure(node.args[0]):
+            alts = [ast.Call(func=ast.Name(id='isinstance', ctx=ast.Load()), args=[copy.deepcopy(node.args[0]), e], keywords=[]) for e in node.args[1].elts]
+            new = ast.BoolOp(op=ast.Or(), values=alts) if len(alts) > 1 else alts[0]
+            _set_lines(new, node)
+            self.done.append(_u(node)[:60])
+            return new
+        return node
+
+
 # ------------------------------------------------------------------------------------------------ driver
 
 def normalise(repo) -> dict:
@@ -548,6 +869,10 @@ def normalise(repo) -> dict:
         return {}
     ref_funcs = ref['functions']
     log: dict = {}
+    try:
+        _recover_renames(repo, ref, log)
+    except Exception as e:
+        log.setdefault('#errors', []).append(f'rename recovery: {type(e).__name__}: {e}')
     try:
         _inline_helpers(repo, set(ref_funcs), log)
     except Exception as e:   # normalisation must never decide anything: on trouble leave the tree as written
@@ -563,6 +888,16 @@ def normalise(repo) -> dict:
             sp.visit(fi.node)
             if sp.done:
                 log.setdefault(q, []).extend(f'tuple prefix test -> or: {x}' for x in sp.done)
+            sp2 = _Spelling2()
+            sp2.visit(fi.node)
+            if sp2.done:
+                log.setdefault(q, []).extend(f'isinstance with a tuple -> or: {x}' for x in sp2.done)
+            d = _hoist_walrus(fi.node)
+            if d:
+                log.setdefault(q, []).extend(f'assignment expression hoisted: {x}' for x in d)
+            d = _split_parallel(fi.node, set(ref_funcs[key].get('parallel', [])))
+            if d:
+                log.setdefault(q, []).extend(f'parallel assignment split: {x}' for x in d)
             d = _expand_ifexp(fi.node, known_ifexp)
             if d:
                 log.setdefault(q, []).extend(f'conditional expression -> if/else: {x}' for x in d)
